@@ -264,12 +264,11 @@ public:
                 // We take the floor after dividing, so that it will round
                 // toward -INFINITY instead of 0; this matches the array
                 // evaluator for positive b.
-                auto quotientInt = static_cast<int>
-                    (std::floor(quotients.lower()));
-                if (quotientInt == static_cast<int>
-                        (std::floor(quotients.upper())))
+                const float quotientInt = std::floor(quotients.lower());
+                if (std::isfinite(quotientInt) &&
+                    quotientInt == std::floor(quotients.upper()))
                 {
-                  out = a.i - b.i * float(quotientInt);
+                  out = a.i - b.i * quotientInt;
                 }
             }
             case 3:
